@@ -1,6 +1,7 @@
 package rules
 
 import (
+	"go/types"
 	"go/token"
 	"strings"
 
@@ -21,7 +22,7 @@ func C14(r *core.Run) {
 		"(R14.3) whenever a listing is marked truncated the continuation markers are set on the same path, from the entry where it stopped; " +
 		"(R14.4) the upload map and the per-key index are updated in step (add/remove write both, nobody else writes, the index never keeps an empty slice); " +
 		"(R14.5) listed uploads come from the index entry of the iterated key, filtered by the prefix match, counted against the limit; " +
-		"(L2) every access to uploader state holds uploader.mu; (R14.6) max-uploads / max-parts / part-number-marker are clamped from the query and passed on."
+		"(L2) every access to uploader state holds uploader.mu; (R14.6) max-uploads / max-parts / part-number-marker are clamped from the query and passed on. (R14.8) a remaining key grouped under an unreported common prefix keeps an upload listing truncated."
 	r.NotDecided = "exactly-once across pages for uploads, prefix grouping semantics, order by initiation time (append order is relied upon)"
 	ctx := oblig.NewCtx(r.P)
 	installNonNilHook(r, ctx)
@@ -42,6 +43,7 @@ func C14(r *core.Run) {
 	rule145(r)
 	rule146(r)
 	rule147(r)
+	rule148(r)
 	// L2 restricted to uploader state
 	a := newLockset(r)
 	r.Rule("L2", "every access to uploader bookkeeping (buckets, uploadID, uploads, objectIndex, parts) holds uploader.mu")
@@ -566,5 +568,69 @@ func rule147(r *core.Run) {
 	}
 	if n == 0 {
 		r.Held("R14.7", "no ordered comparison of upload ids", "", sprintf("scanned all comparisons; control: %d ordered VersionID comparison(s)", ctl))
+	}
+}
+
+// rule148 — the look-ahead that decides truncation of an upload listing counts unreported common prefixes.
+func rule148(r *core.Run) {
+	r.Rule("R14.8", "in ListMultipartUploads, once the limit is reached, a remaining key that matches the prefix and is grouped under a common prefix NOT yet reported on this page makes the listing truncated (with next markers from that key): decided by assuming the match succeeded, the key is grouped and its prefix unseen, and asking whether a `truncated = true` after the main loop is reachable")
+	fn := mustFunc(r, "gofakes3.(*uploader).ListMultipartUploads")
+	if fn == nil {
+		return
+	}
+	name := fname(r, fn)
+	// Match calls and the truncated stores they guard
+	n := 0
+	core.Instrs(fn, func(in ssa.Instruction) {
+		mc, ok := in.(*ssa.Call)
+		if !ok || r.P.CalleeName(mc) != "gofakes3.(Prefix).Match" {
+			return
+		}
+		// stores of `true` to the truncation flag reachable from this Match call, whose only earlier listing site is behind them:
+		// the look-ahead loop is the Match call from which no append to result.Uploads / CommonPrefixes is reachable without passing IsTruncated's store
+		appends := false
+		core.Instrs(fn, func(x ssa.Instruction) {
+			if st, ok := x.(*ssa.Store); ok {
+				if fa, ok := st.Addr.(*ssa.FieldAddr); ok {
+					fnm := r.P.FieldName(fa)
+					if (fnm == "gofakes3.ListMultipartUploadsResult.Uploads" || fnm == "gofakes3.ListMultipartUploadsResult.CommonPrefixes") && core.Reaches(mc, st) {
+						appends = true
+					}
+				}
+			}
+		})
+		if appends {
+			return // the main listing loop
+		}
+		n++
+		// the values to assume: the match result, match.CommonPrefix, and a seen-prefix lookup
+		assume := map[ssa.Value]bool{mc: true}
+		core.Instrs(fn, func(x ssa.Instruction) {
+			switch v := x.(type) {
+			case *ssa.UnOp:
+				if isLoadOf(r, v, "gofakes3.PrefixMatch.CommonPrefix") && core.Reaches(mc, v) {
+					assume[v] = true
+				}
+			case *ssa.Lookup:
+				if v.CommaOk {
+					return
+				}
+				if bt, ok := v.Type().Underlying().(*types.Basic); ok && bt.Kind() == types.Bool && core.Reaches(mc, v) {
+					assume[v] = false // prefix not yet seen on this page
+				}
+			}
+		})
+		// is some store of a non-false value to the truncation result reachable?
+		reach := false
+		for _, st := range resultFieldStores(r, fn, "gofakes3.ListMultipartUploadsResult.NextKeyMarker") {
+			if core.Reaches(mc, st) && core.ReachesAssuming(mc, st, assume) {
+				reach = true
+			}
+		}
+		r.Check(reach, "R14.8", key(name, "unreported common prefix keeps the listing truncated", sprintf("#%d", n)), pos(r, mc), "a grouped key with an unreported prefix sets the next markers",
+			"after the limit is reached, remaining keys that are grouped under a common prefix this page has not reported are ignored by the look-ahead: the listing ends early, not truncated, and those prefixes are never returned")
+	})
+	if n == 0 {
+		r.Unresolved("R14.8: the look-ahead loop of ListMultipartUploads was not found")
 	}
 }
